@@ -82,7 +82,7 @@ def resolve(world, shuffle_seed=None, step_limit=STEP_LIMIT):
         ret = r.add_atoms(built["targets"], finalize=True)
     finally:
         sys.setrecursionlimit(old_limit)
-    out = {"ok": not ret, "ops": RW.plan_ops(r), "steps": r._vf_steps, "failed": None}
+    out = {"ok": not ret, "ops": RW.plan_ops(r), "steps": r._vf_steps, "failed": None, "vdb_forced": r._vf_vdb_forced}
     if ret:
         out["failed"] = [str(x) for x in ret[0]]
     return out
